@@ -422,6 +422,117 @@ def interleaved_generators(ctx, rng):
         sess.close_loop()
         return out
 
+    def failed_reconnect(mode, k):
+        """Packets of a held generator are parked, then the caller reconnects (without close()) and the transport cannot connect: the old
+        connection is gone, so nothing that was parked on it may still be handed out - not to the generator left over from it either."""
+        dev = simdev.SimDevice(chooser=simdev.Seeded(k), seed=k)
+        dev.eager = True
+        dev.shell_scripts[b'shell:old'] = [b'A1;', b'A2;', b'A3;']
+        dev.shell_scripts[b'shell:whole'] = [b'w1;', b'w2;']
+        sess = env.Session(mode, dev)
+        sess.call('connect')
+        out = dict(old=[], whole=None, after=[], errors=[])
+
+        def arm():
+            sess.core.fault.only = ('connect',)
+            for j in range(sess.core.ncalls, sess.core.ncalls + 4):
+                sess.core.fault.at[j] = ('timeout', 'oserr')[k % 2]
+
+        def drive_sync():
+            ga = iter(sess.device.streaming_shell('old', decode=False, read_timeout_s=2.0))
+            out['old'].append(next(ga))
+            out['whole'] = sess.device.shell('whole', decode=False, read_timeout_s=2.0)       # reads (and parks) what the old stream still sends
+            out['parked_before'] = len(sess.device._io_manager._packet_store)
+            arm()
+            try:
+                sess.device.connect()
+            except Exception as e:  # noqa
+                out['errors'].append(('connect', type(e).__name__))
+            out['parked_after'] = len(sess.device._io_manager._packet_store)
+            for _ in range(3):
+                try:
+                    out['after'].append(next(ga))
+                except StopIteration:
+                    break
+                except Exception as e:  # noqa
+                    out['errors'].append(('a', type(e).__name__))
+                    break
+
+        async def drive_async():
+            ga = sess.device.streaming_shell('old', decode=False, read_timeout_s=2.0).__aiter__()
+            out['old'].append(await ga.__anext__())
+            out['whole'] = await sess.device.shell('whole', decode=False, read_timeout_s=2.0)
+            out['parked_before'] = len(sess.device._io_manager._packet_store)
+            arm()
+            try:
+                await sess.device.connect()
+            except Exception as e:  # noqa
+                out['errors'].append(('connect', type(e).__name__))
+            out['parked_after'] = len(sess.device._io_manager._packet_store)
+            for _ in range(3):
+                try:
+                    out['after'].append(await ga.__anext__())
+                except StopAsyncIteration:
+                    break
+                except Exception as e:  # noqa
+                    out['errors'].append(('a', type(e).__name__))
+                    break
+        sess.rebind_clock()
+        if mode == 'sync':
+            drive_sync()
+        else:
+            sess.loop.run_until_complete(drive_async())
+        sess.close_loop()
+        return out
+
+    def strays_before_wanted(mode, k):
+        """What a held generator waits for lies parked under one of its legacy zero-id pairs, behind stray packets (commands it does not
+        expect: they are dropped) that head its other pairs; another operation read and parked all of them.  Dropping the strays must
+        not make the generator overlook the packet it waits for."""
+        from .. import wire as wire_
+        dev = simdev.SimDevice(chooser=simdev.Seeded(k), seed=k)
+        dev.shell_scripts[b'shell:old'] = [b'A1;', b'never;']
+        dev.shell_scripts[b'shell:whole'] = [b'w1;', b'w2;']
+        sess = env.Session(mode, dev)
+        sess.call('connect')
+        out = dict(old=[], whole=None, errors=[])
+        orders = [[('OKAY', 'R', 'L'), ('OKAY', 'R', 0), ('WRTE', 0, 'L')], [('OKAY', 'R', 0), ('OKAY', 'R', 'L'), ('WRTE', 0, 'L')], [('OKAY', 'R', 'L'), ('OKAY', 0, 'L'), ('WRTE', 'R', 0)],
+                  [('OKAY', 0, 'L'), ('OKAY', 'R', 'L'), ('OKAY', 'R', 'L'), ('WRTE', 'R', 0)]]
+
+        def inject():
+            st = dev.all_streams[-1]
+            dev.frozen = set([st.lid])                   # the service itself says nothing more
+            for (cmd, a0, a1) in orders[k % len(orders)]:
+                a0_, a1_ = (st.rid if a0 == 'R' else 0), (st.lid if a1 == 'L' else 0)
+                dev.put(wire_.frame(cmd, a0_, a1_, b'A2;' if cmd == 'WRTE' else b''), lid=st.lid, sl=st.lid)
+
+        def drive_sync():
+            ga = iter(sess.device.streaming_shell('old', decode=False, read_timeout_s=2.0))
+            out['old'].append(next(ga))
+            inject()
+            out['whole'] = sess.device.shell('whole', decode=False, read_timeout_s=2.0)
+            try:
+                out['old'].append(next(ga))
+            except Exception as e:  # noqa
+                out['errors'].append(type(e).__name__)
+
+        async def drive_async():
+            ga = sess.device.streaming_shell('old', decode=False, read_timeout_s=2.0).__aiter__()
+            out['old'].append(await ga.__anext__())
+            inject()
+            out['whole'] = await sess.device.shell('whole', decode=False, read_timeout_s=2.0)
+            try:
+                out['old'].append(await ga.__anext__())
+            except Exception as e:  # noqa
+                out['errors'].append(type(e).__name__)
+        sess.rebind_clock()
+        if mode == 'sync':
+            drive_sync()
+        else:
+            sess.loop.run_until_complete(drive_async())
+        sess.close_loop()
+        return out
+
     def two_devices(mode, k):
         """Two device objects alive in one process, each with its own device; both number their streams from 1, so their (remote id,
         local id) pairs coincide.  Nothing one object reads or parks may reach the other."""
@@ -475,6 +586,20 @@ def interleaved_generators(ctx, rng):
             want = {'A': [b'A1;', b'A2;', b'A3;'], 'B': [b'B1;', b'B2;', b'B3;'], 'wholeA': b'Aw1;Aw2;', 'wholeB': b'Bw1;Bw2;'}
             if out != want:
                 ctx.violation('C06.SameAsAlone', dict(kind='two device objects alive at once, streams with coinciding ids', mode=mode, variant=k, observed={a: repr(b)[:100] for a, b in out.items()}))
+    for mode in ('sync', 'async'):
+        for k in range(4):
+            out = strays_before_wanted(mode, k)
+            n += 1
+            if out != dict(old=[b'A1;', b'A2;'], whole=b'w1;w2;', errors=[]):
+                ctx.violation('C06.SameAsAlone', dict(kind='the packet a held generator waits for is parked under a zero-id pair, behind stray packets heading its other pairs', mode=mode, variant=k,
+                                                      observed={a: repr(b)[:120] for a, b in out.items()}))
+    for mode in ('sync', 'async'):
+        for k in range(4):
+            out = failed_reconnect(mode, k)
+            n += 1
+            if out['after'] or out.get('parked_after') or not any(e_[0] == 'connect' for e_ in out['errors']):
+                ctx.violation('C06.SameAsAlone', dict(kind='a reconnect that fails at transport.connect() while packets of a held generator are parked: they belong to a connection that is gone',
+                                                      mode=mode, variant=k, observed={a: repr(b)[:120] for a, b in out.items()}))
     for mode in ('sync', 'async'):
         for with_close in (True, False):
             for k in range(4):
